@@ -226,6 +226,30 @@ func checkC16(e *Engine, r *Report) {
 		r.Check("R6:cpu-node-from-own-link", "R6 sysfs reader table", "a CPU's NUMA node is the node<N> link inside the CPU's own sysfs directory", e.Pos(fn.Pos()), fn, okNode, "", true)
 	}
 
+	// a cache object's identity (level, type, id — the de-duplication key of saveCache) and its sharing set are discovered
+	// or discovery fails: an unreadable attribute never leaves a zero value behind, which would alias different caches
+	if dc := r.Anchor(pkgSysfs, "system.discoverCache"); dc != nil {
+		save := e.Fn(pkgSysfs, "system.saveCache")
+		nID := 0
+		for _, c := range e.callsTo(dc, read) {
+			entry, isConst := constString(callArgs(c)[1])
+			if !isConst || !(entry == "id" || entry == "level" || entry == "type" || entry == "shared_cpu_list") {
+				continue
+			}
+			nID++
+			failed := func(cond ssa.Value) (bool, bool) { k, v := callSucceeded(c.Value())(cond); return k, !v }
+			p := FindPath(PathQuery{Fn: dc, From: c.(ssa.Instruction), Assume: failed, Target: func(in ssa.Instruction) bool {
+				if save != nil && e.IsCallTo(in, fset(save)) {
+					return true
+				}
+				ret, ok := in.(*ssa.Return)
+				return ok && e.ClassifyReturn(ret) != retNonNilErr
+			}})
+			r.Check("R6:cache-identity-read-or-fail#"+entry, "R6 sysfs reader table", "when the cache attribute "+entry+" cannot be read, discovery of that cache fails; the cache is never registered with a defaulted "+entry, e.InstrPos(c), dc, p == nil, e.pathString(p), true)
+		}
+		r.MinInstances("cache identity attributes read", nID, 4)
+	}
+
 	// ================================================================== accessor fidelity
 	type acc struct {
 		typ, method string
